@@ -64,13 +64,19 @@ def concrete_specs(tier: str):
                 if max(wa, wt, wb) >= 3:
                     for nest in ('orL', 'orB'):
                         yield (si, pi, wa, wq, wt, wb, 1, 0.25, nest)
+                    yield (si, pi, wa, wq, wt, wb, 0, 1.0014, 'slashy')   # look-alike topic names; a bound that is not a whole number of ms
+                    yield (si, pi, wa, wq, wt, wb, 1, 0.00049, 'slashy')
 
 
 def run_concrete(ck: Check, totality: bool = False):
     n = bad = known = 0
     seen = set()
     for (si, pi, wa, wq, wt, wb, deco, mt, nest) in concrete_specs(ck.tier):
-        spec = c11_sx.mk(si, pi, wa, wq, wt, wb, deco, mt, 'T', nest)
+        props.SLASHY[0] = (nest == 'slashy')
+        try:
+            spec = c11_sx.mk(si, pi, wa, wq, wt, wb, deco, mt, 'T', 'or' if nest == 'slashy' else nest)
+        finally:
+            props.SLASHY[0] = False
         key = props.render_property(spec) + ('' if nest == 'or' else f'  [{nest}]')
         if key in seen:
             continue
